@@ -101,6 +101,18 @@ class Points(ObjectBase):
 
         self.workspace.update_attribute(self, "vertices")
 
+        # vertex data held in memory follow a larger vertex count (padded and stored)
+        for child in self.children:
+            values = getattr(child, "_values", None)
+            if (
+                isinstance(values, np.ndarray)
+                and hasattr(child, "format_length")
+                and getattr(getattr(child, "association", None), "name", None)
+                == "VERTEX"
+                and len(values) < xyz.shape[0]
+            ):
+                child.values = values
+
     def remove_vertices(
         self, indices: list[int] | np.ndarray, clear_cache: bool = False
     ):
